@@ -41,7 +41,7 @@ EMPTY = ['', '# just a comment\n', '---\n...\n', 'null', '~', '---\n', '\n\n',
 @st.composite
 def cases(draw):
     spec = draw(gen.models(FEATS))
-    c = draw(st.sampled_from(list(range(12)) + [10] * 5))
+    c = draw(st.sampled_from(list(range(12)) + [10] * 5 + [11] * 7))
     if c == 0:
         return {'model': spec, 'text': draw(st.sampled_from(EMPTY)), 'src': 'empty'}
     if c in (4, 9):
@@ -53,8 +53,15 @@ def cases(draw):
     else:
         t, origin = draw(gen.doc_for(spec, tags=c >= 8, hard=c % 2 == 0))
     if c == 11:
-        t, _ = draw(gen.share(t))
-        origin = origin.split(':')[0] + '+alias'
+        from yv.props import c04
+        t2 = c04.alias_typed(draw, spec) if draw(st.integers(0, 3)) > 0 else None
+        if t2 is not None:
+            # one scalar node at a plain-string position and at an enum /
+            # string-like / Path position
+            t, origin = t2, 'value+alias_typed'
+        else:
+            t, _ = draw(gen.share(t))
+            origin = origin.split(':')[0] + '+alias'
     elif c == 10:
         t2 = merge_optional(draw, spec)
         if t2 is not None:
